@@ -19,7 +19,7 @@ LEVEL_TEXT["C14"] = (
 
 PROPS["C14"] = {
     "gen": ["Cmplx", "SmallFft", "Consts"],
-    "lean_props": "DspVerif.Props.C14",
+    "lean_props": ["DspVerif.Props.C14", "DspVerif.Props.C14Total"],
     "harness": [{"src": "c14.cpp", "cfg": "rel",
                  "tol": {"hilb": (1e-10, 0.0), "hilbg": (1e-10, 0.0), "hilbn": (1e-10, 0.0),
                          "hfd": (1e-13, 0.0), "hfp": (1e-13, 0.0), "tun": (1e-13, 0.0), "tunx": (1e-13, 0.0),
